@@ -157,6 +157,12 @@ type FailoverController struct {
 	failoverTimer *time.Timer
 	failbackTimer *time.Timer
 
+	// failoverGen identifies the currently armed failover timer. It is advanced
+	// whenever the timer is armed or canceled, so that a timer goroutine that
+	// had already fired when its timer was canceled (Stop returned false) can
+	// recognize that it is stale and must not promote.
+	failoverGen uint64
+
 	// Statistics
 	failoversInitiated uint64
 	failoversCompleted uint64
@@ -337,8 +343,10 @@ func (c *FailoverController) handleHealthEvent(event HealthEvent) {
 			if c.failoverTimer != nil {
 				c.failoverTimer.Stop()
 			}
+			c.failoverGen++
+			gen := c.failoverGen
 			c.failoverTimer = time.AfterFunc(c.config.FailoverDelay, func() {
-				c.executeFailover("partner health check failure")
+				c.executeFailover("partner health check failure", gen)
 			})
 		}
 
@@ -350,6 +358,7 @@ func (c *FailoverController) handleHealthEvent(event HealthEvent) {
 			if c.failoverTimer != nil {
 				c.failoverTimer.Stop()
 			}
+			c.failoverGen++ // invalidate a timer that has fired but not yet run
 			c.state = FailoverStateNormal
 			atomic.AddUint64(&c.failoversCanceled, 1)
 
@@ -424,10 +433,17 @@ func (c *FailoverController) initiateFailover(reason string) error {
 	return nil
 }
 
-// executeFailover performs the actual failover.
-func (c *FailoverController) executeFailover(reason string) {
+// executeFailover performs the actual failover. gen is the generation of the
+// failover timer that triggered it, or 0 when it was not triggered by a timer.
+func (c *FailoverController) executeFailover(reason string, gen uint64) {
 	verifGate(c, "executeFailover")
 	c.mu.Lock()
+
+	if gen != 0 && gen != c.failoverGen {
+		// Stale timer: it was canceled (partner recovered) after it had fired.
+		c.mu.Unlock()
+		return
+	}
 
 	if c.state != FailoverStatePending && c.state != FailoverStateInProgress {
 		c.mu.Unlock()
